@@ -18,7 +18,8 @@ EXPLANATION = (
     'bounding_box value that sized the grid; (R5, thorough) the rectangle frame used by corners '
     'equals centre + R(angle)(±w/2, ±h/2). Not decided: floor/ceil rounding within an ulp of a pixel '
     'edge; membership-inside-box for polygons is taken from the min/max form.')
-EXPLANATION_ADDED = (' (R6) neither bounding_box nor to_mask nor any property of self they read remembers a result (memoising decorator or a store into self): the box is recomputed from the current parameters and operands.')
+EXPLANATION_ADDED = (' (R6) neither bounding_box nor to_mask nor any property of self they read remembers a result (memoising decorator or a store into self): the box is recomputed from the current parameters and operands.'
+                     " R3's compound clause is decided by order types: with the operands' boxes given, the compound box is the smallest box containing both on all 676 orderings of their limits (empty boxes included), and it reads no other state of the compound.")
 EXPLANATION += EXPLANATION_ADDED
 TRUSTED = ['np.floor/np.ceil/int on floats', 'ndarray.min()/max() are the extreme elements',
            'np.cos/np.sin of an angle Quantity']
